@@ -734,6 +734,11 @@ def eval_model_case(case):
     rocks = dict((b.name, b.rocktype.name) for b in dat.grid.blocklist)
     unlisted = [cat for cat in cats if cat not in top and cat not in bottom]
     primer = case.get('primer')
+    nincon = case.get('incon', 0)
+    if nincon:
+        cls += ',incon-files,nvar=%d' % nincon
+    incfiles = (os.path.join(core.scratch(), 'c19src.incon'), os.path.join(core.scratch(), 'c19tgt.incon'))
+    new_holder = [None]
 
     def call(obj, tops, bottoms, omit_empty):
         """transfer_from with the lists given; empty lists are left out (the defaults) when omit_empty."""
@@ -742,6 +747,8 @@ def eval_model_case(case):
             kw['top_generator'] = tops
         if bottoms or not omit_empty:
             kw['bottom_generator'] = bottoms
+        if nincon and obj is new_holder[0]:
+            kw['sourceinconfilename'], kw['inconfilename'] = incfiles
         with quiet():
             with core.timelimit(120):
                 obj.transfer_from(dat, src, tgt, **kw)
@@ -760,9 +767,27 @@ def eval_model_case(case):
         except Exception:
             pass                     # the primer's own result is another case's business
     new = t2data()
+    new_holder[0] = new
     top0, bottom0 = list(top), list(bottom)
+    srcinc_state = None
+    if nincon:
+        # the initial conditions travel in files: source file -> transfer_from -> target file
+        psrc = plain_of(src)
+        sinc = make_incon(psrc, nincon)
+        srcinc_state = dict((b[0], b) for b in snapshot(sinc))
+        for f in incfiles:
+            if os.path.exists(f):
+                os.remove(f)
+        with quiet():
+            sinc.write(incfiles[0])
+        # a model with n primary variables says so in MULTI
+        dat.multi = {'num_components': max(nincon - 1, 1), 'num_equations': nincon, 'num_phases': 2,
+                     'num_secondary_parameters': 6}
     try:
-        call(new, top, bottom, bool(primer) or bool(case.get('omit')))
+        try:
+            call(new, top, bottom, bool(primer) or bool(case.get('omit')))
+        finally:
+            dat.multi = {}
     except core.CaseTimeout:
         return [('C19|t2data.transfer_from|timeout|' + cls, 'transfer_from did not return within 120 s')]
     except Exception as e:
@@ -773,6 +798,29 @@ def eval_model_case(case):
                  'top_generator / bottom_generator passed as %r / %r are %r / %r after the call' % (top0, bottom0, top, bottom))]
     got = sorted(gen_record(g) for g in new.generatorlist)
     out = []
+    if nincon:
+        from t2incons import t2incon
+        try:
+            with quiet():
+                with core.timelimit(120):
+                    tinc = t2incon(incfiles[1], num_variables=nincon)
+        except Exception as e:
+            return [('C19|t2data.transfer_from|incon-file-unreadable|' + cls, 'reading the written incon file raised %r' % e)]
+        names = [b.block for b in tinc]
+        if sorted(names) != sorted(srcinc_state):
+            out.append(('C19|t2data.transfer_from|incon-file-blocks|' + cls,
+                        'transferred incon file has blocks %r..., the (identical) geometry has %d blocks'
+                        % (sorted(set(names) ^ set(srcinc_state))[:4], len(srcinc_state))))
+        else:
+            for b in tinc:
+                w = srcinc_state[b.block]
+                v = tuple(float(x) for x in b.variable)
+                if len(v) != len(w[1]) or any(abs(a - c) > 1e-12 * abs(c) for a, c in zip(v, w[1])) or \
+                        abs(b.porosity - w[2]) > 1e-8 * abs(w[2]):
+                    out.append(('C19|t2data.transfer_from|incon-file-state|' + cls,
+                                'block %r has state %r porosity %r in the transferred file, source %r %r'
+                                % (b.block, v, b.porosity, w[1], w[2])))
+                    break
     if sorted(gen_record(g) for g in dat.generatorlist) != before:
         out.append(('C19|t2data.transfer_from|source-altered|' + cls, 'the source generators changed'))
     gk, wk = [r[:2] for r in got], [r[:2] for r in want]
@@ -839,6 +887,10 @@ def model_cases(gid, conv):
                     if primer:
                         c['primer'] = primer
                     yield c
+        # initial conditions carried in files (sourceinconfilename / inconfilename), 1..6 primary variables
+        for nv in (1, 2, 4, 5, 6):
+            yield {'kind': 'model', 'g': gid, 'conv': conv, 'atm': atm, 'set': len(sets) - 1, 'preserve': 0, 'rename': 0,
+                   'naming': 'canon', 'incon': nv}
 
 
 # ---------------------------------------------------------------------------------------------- driver
